@@ -1287,6 +1287,16 @@ func (f *fn) retStmt(o *w, rs *ast.ReturnStmt) {
 		} else {
 			throw(rs.Results[1])
 		}
+	case "pairErr":
+		if len(rs.Results) != 3 {
+			fail(rs.Pos(), "return arity")
+		}
+		if isNilIdent(rs.Results[2]) {
+			a, b := f.expr(rs.Results[0]), f.expr(rs.Results[1])
+			o.line("%s", wrap("("+a.val()+", "+b.val()+")"))
+		} else {
+			throw(rs.Results[2]) // the values returned next to an error (nil, cid.Undef) are not looked at by callers
+		}
 	case "tuple":
 		var vs []string
 		if len(rs.Results) == 0 {
@@ -2301,6 +2311,10 @@ func translate(tg *target) (text string, err error) {
 	case len(resTys) == 2 && resTys[1].lean == "error":
 		f.resKind, f.resLean = "valueErr", resTys[0].lean
 		targetResult[tg.Lean] = resTys[0]
+	case len(resTys) == 3 && resTys[2].lean == "error":
+		// (A, B, error): the two values as a pair, the error as the outcome
+		f.resKind, f.resLean = "pairErr", "("+resTys[0].lean+" × "+resTys[1].lean+")"
+		targetResult[tg.Lean] = ty{f.resLean, "pair"}
 	case len(resTys) >= 2:
 		f.resKind = "tuple"
 		var ts []string
